@@ -554,6 +554,8 @@ func (req *Request) Process(store StorageClient, stat *Stats) (resp *Response, e
 		key := req.Keys[0]
 		add, err := strconv.Atoi(string(req.Item.Body))
 		if err != nil {
+			// undo the SetData count taken in Read: nothing will be stored
+			cmem.DBRL.SetData.SubCount(1)
 			resp.Status = "CLIENT_ERROR"
 			resp.Msg = "invalid number"
 			break
